@@ -714,6 +714,9 @@ class PEval:
                     return l > r
                 if op == "Ge":
                     return l >= r
+            num = lambda x: isinstance(x, (int, float)) and not isinstance(x, bool)
+            if num(l) and num(r) and (isinstance(l, float) or isinstance(r, float)):
+                l, r = float(l), float(r)
             if isinstance(l, float) and isinstance(r, float):
                 if op in ("Lt", "Le", "Gt", "Ge"):
                     return {"Lt": l < r, "Le": l <= r, "Gt": l > r, "Ge": l >= r}[op]
@@ -1116,6 +1119,8 @@ class PEval:
                 return self.unknown("sort key")
         if fname == "partial_cmp" and len(args) == 2 and all(isinstance(x, int) for x in args):
             return some(ordering(args[0], args[1]))
+        if isinstance(a0, int) and not isinstance(a0, bool) and ("<impl f64>" in path or "<impl f32>" in path):
+            a0 = float(a0)
         if isinstance(a0, float) and ("f64" in path or "f32" in path):
             import math
             if fname == "is_nan":
